@@ -519,4 +519,4 @@ End Model.
 
 (* the code before the repairs of this property, and the code as it is now *)
 Definition legacy : variant := mkVariant false false false.
-Definition current : variant := mkVariant false false false.
+Definition current : variant := mkVariant true true true.
